@@ -27,7 +27,11 @@ RULE = ("each case = one (x, err) pair of binary64 floats: x of either sign with
         "independent reader's (value, uncertainty) with the model's `denote`, and the reader checks the property itself; "
         "non-trivial = x != 0 and err/|x| within [1e-12, 1e12]; distinct by the pair (x, err)")
 EXHAUSTIVE = {'quick': False, 'thorough': False}
-TRUSTED = ["the harness repeats the two float operations of the function (`v / 10**head / 10**(k - head)`, `err < abs(x / 10)`) "
+TRUSTED = ["harness/pynum2lean.py + anchors_numfn.py: that the translated body of format_number_with_error means in Lean what the Python "
+           "means, with floats opaque and `f\"{v:.Ne}\".split(\"e\")`, `int(<exponent text>)`, `<mantissa>.replace(\".\", \"\")`, `a < abs(b / n)`, "
+           "`v / 10**a / 10**b` and the parts of the returned f-string as named abstract operations; their instantiation with the "
+           "model's primitives is XyzProofs/Refine/Fmt.lean (`Fmt.Src`)",
+           "the harness repeats the two float operations of the function (`v / 10**head / 10**(k - head)`, `err < abs(x / 10)`) "
            "to hand the model the exact rationals of the scaled floats; Python's float<->Fraction conversions are exact",
            "the independent reader (regular expression + Fraction arithmetic) and its explicit float-division slack"]
 ASSUMPTIONS = ["floating point is not reasoned about in Lean: the theorems are about exact rationals and take the scaled floats as "
